@@ -599,8 +599,8 @@ impl AssemblyCode {
                                 }
                             }
                             if let Some(v) = &x_register {
-                                if v.eq(&inst.dasm_operand) {
-                                    // Remove this instruction
+                                if v.eq(&inst.dasm_operand) && flags == FlagsState::X {
+                                    // Remove this instruction (the flags it would set are already there)
                                     remove_second = !inst.protected;
                                 }
                             }
@@ -619,8 +619,8 @@ impl AssemblyCode {
                                 }
                             }
                             if let Some(v) = &y_register {
-                                if v.eq(&inst.dasm_operand) {
-                                    // Remove this instruction
+                                if v.eq(&inst.dasm_operand) && flags == FlagsState::Y {
+                                    // Remove this instruction (the flags it would set are already there)
                                     remove_second = !inst.protected;
                                 }
                             }
@@ -675,6 +675,7 @@ impl AssemblyCode {
                             flags = FlagsState::Unknown;
                         }
                         AsmMnemonic::TAX => {
+                            flags = FlagsState::X;
                             x_register = accumulator.clone();
                             if let Some(v) = &accumulator {
                                 if v.ends_with(",X") {
@@ -689,6 +690,7 @@ impl AssemblyCode {
                             }
                         }
                         AsmMnemonic::TAY => {
+                            flags = FlagsState::Y;
                             y_register = accumulator.clone();
                             if let Some(v) = &accumulator {
                                 if v.ends_with(",Y") {
@@ -704,9 +706,11 @@ impl AssemblyCode {
                         }
                         AsmMnemonic::TXA => {
                             accumulator = x_register.clone();
+                            flags = FlagsState::A;
                         }
                         AsmMnemonic::TYA => {
                             accumulator = y_register.clone();
+                            flags = FlagsState::A;
                         }
                         AsmMnemonic::STA | AsmMnemonic::STX | AsmMnemonic::STY => {
                             if let Some(v) = &accumulator {
@@ -729,7 +733,10 @@ impl AssemblyCode {
                         | AsmMnemonic::SBC
                         | AsmMnemonic::EOR
                         | AsmMnemonic::AND
-                        | AsmMnemonic::ORA => accumulator = None,
+                        | AsmMnemonic::ORA => {
+                            accumulator = None;
+                            flags = FlagsState::A;
+                        }
                         AsmMnemonic::LSR | AsmMnemonic::ASL | AsmMnemonic::ROL | AsmMnemonic::ROR => {
                             // The accumulator or the memory operand (under whatever spelling) is modified
                             accumulator = None;
@@ -747,13 +754,17 @@ impl AssemblyCode {
                             }
                             flags = FlagsState::Unknown;
                         }
-                        AsmMnemonic::PLA | AsmMnemonic::PHA => accumulator = None,
+                        AsmMnemonic::PLA => {
+                            accumulator = None;
+                            flags = FlagsState::A;
+                        }
+                        AsmMnemonic::PHA => accumulator = None,
                         AsmMnemonic::JSR | AsmMnemonic::JMP => {
                             accumulator = None;
                             x_register = None;
                             y_register = None;
                         }
-                        AsmMnemonic::CPX | AsmMnemonic::CPY | AsmMnemonic::CMP => {
+                        AsmMnemonic::CPX | AsmMnemonic::CPY | AsmMnemonic::CMP | AsmMnemonic::PLP => {
                             flags = FlagsState::Unknown;
                         }
                         _ => (),
